@@ -104,6 +104,9 @@ func checkSer(R *vlib.Out, prop string, t *tmpl, hp, bp, tp []*pop) {
 				l.p.Val, l.p.Route = alt, 's'
 			case 1:
 				stage = "FromBytes"
+				if l.n.Typ == "Float" && withSubMs {
+					alt = "-0.0010" // a text the library would not print itself: it goes back on the wire verbatim
+				}
 				if err := l.kv.FromBytes([]byte(alt)); err != nil {
 					panic(err)
 				}
